@@ -89,6 +89,17 @@ def alphabet_A4() -> List[Key]:
     return keys
 
 
+def alphabet_A5() -> List[Key]:
+    """3 labels, arity <= 1, shifts in {1,2,3,4}: a large shift arriving after the parent
+    was already pumped by smaller ones (the gap size must follow the rule's own shifts): 39 keys."""
+    keys: List[Key] = [(p, (), ()) for p in range(3)]
+    for p in range(3):
+        for c in range(3):
+            for s in (1, 2, 3, 4):
+                keys.append((p, (c,), (s,)))
+    return keys
+
+
 def alphabet_A1s() -> List[Key]:
     """40-key sub-alphabet of A1 for depth 4 (every other shift pair of the binary rules)."""
     a1 = alphabet_A1()
@@ -105,6 +116,7 @@ ALPHABETS = {
     "A2": alphabet_A2,
     "A3": alphabet_A3,
     "A4": alphabet_A4,
+    "A5": alphabet_A5,
 }
 
 # universes of tests/test_forest.py (data copied, not imported)
@@ -410,9 +422,9 @@ def run(ctx: Ctx) -> None:
         "labels <= 3 (4 in A4), arity <= 2, |shift| <= 2 (3 in A4)",
     ]
     if ctx.quick:
-        plans = [("A1", 3, 1), ("A2", 4, 2)]
+        plans = [("A1", 3, 1), ("A2", 4, 2), ("A5", 4, 2)]
     else:
-        plans = [("A1", 3, 1), ("A2", 4, 2), ("A1s", 4, 2), ("A3", 3, 2), ("A4", 5, 2)]
+        plans = [("A1", 3, 1), ("A2", 4, 2), ("A5", 4, 2), ("A1s", 4, 2), ("A3", 3, 2), ("A4", 5, 2)]
     ctx.bounds = {"sequence_plans": [{"alphabet": a, "keys": len(ALPHABETS[a]()), "depth": d} for a, d, _ in plans]}
     shards = []
     for name, depth, plen in plans:
